@@ -81,7 +81,7 @@ macro_rules! apply_op {
 fn embedded_uri<const OP: u8, const N: usize, const M: usize>() {
     let t = Text::<N>::any();
     let b = t.bytes();
-    assume(tables::t_uri_uriref_valid(b));
+    assume(tables::t_uri_uriref_valid_k(b, N));
     let a = Text::<M>::any();
     let arg = a.bytes();
     if OP == SYMBOLIC_APPEND {
@@ -108,7 +108,7 @@ fn embedded_uri<const OP: u8, const N: usize, const M: usize>() {
         (v.as_bytes().as_ptr(), v.as_bytes().len())
     };
     let out = x.as_bytes();
-    assert!(tables::t_uri_uriref_valid(out), "C04: the buffer is no longer a valid URI reference after the path edit");
+    assert!(tables::t_uri_uriref_valid_k(out, N + M + 3), "C04: the buffer is no longer a valid URI reference after the path edit");
     let after = split_ref(out);
     let ca = comps_of(out, &after);
     macro_rules! same_opt {
@@ -132,12 +132,26 @@ fn embedded_uri<const OP: u8, const N: usize, const M: usize>() {
     let fresh = x.path().as_bytes();
     assert!(hp == fresh.as_ptr() && hl == fresh.len(), "C04/C10: the handle does not view exactly the path after the edit");
     cover!(cb.authority.is_some() && cb.path.is_empty(), "empty path after an authority");
-    cover!(cb.scheme.is_none() && cb.authority.is_none() && got.n > want.n, "a shield was inserted");
+    if OP == PUSH || OP == SYMBOLIC_PUSH || OP == SYMBOLIC_APPEND {
+        cover!(cb.scheme.is_none() && cb.authority.is_none() && got.n > want.n, "a shield was inserted");
+    }
+    if OP == POP {
+        cover!(got.n > want.n, "pop left the shielded single empty segment (/./)");
+        cover!(got.n == want.n && want.n > 0 && out.len() > b.len(), "pop appended '..'");
+    }
     cover!(cb.query.is_some() && out.len() != b.len(), "text after the path was moved");
     forget(x);
 }
 
-// @h prop=C10,C04 tier=quick kind=check timeout=2400 mem=16 bound="UriRefBuf text <= 6 bytes, segment <= 2 bytes" encodes="RiRefBufImpl::path_mut;PathMutImpl::{new,push,first_segment_offset};utils::{replace,allocate_range};Deref for PathMut"
+// @h prop=C10,C04 tier=quick kind=check timeout=2400 mem=16 bound="UriRefBuf text <= 5 bytes, segment <= 2 bytes" encodes="RiRefBufImpl::path_mut;PathMutImpl::{new,push,first_segment_offset};utils::{replace,allocate_range};Deref for PathMut"
+#[cfg_attr(kani, kani::proof)]
+#[cfg_attr(kani, kani::unwind(12))]
+#[cfg_attr(kani, kani::stub(std::vec::Vec::resize, crate::stubs::vec_resize))]
+pub fn c10_embedded_push_n5() {
+    embedded_uri::<PUSH, 5, 2>()
+}
+
+// @h prop=C10,C04 tier=thorough kind=check timeout=2400 mem=16 bound="UriRefBuf text <= 6 bytes, segment <= 2 bytes" encodes="RiRefBufImpl::path_mut;PathMutImpl::{new,push,first_segment_offset};utils::{replace,allocate_range};Deref for PathMut"
 #[cfg_attr(kani, kani::proof)]
 #[cfg_attr(kani, kani::unwind(13))]
 #[cfg_attr(kani, kani::stub(std::vec::Vec::resize, crate::stubs::vec_resize))]
@@ -145,7 +159,15 @@ pub fn c10_embedded_push_n6() {
     embedded_uri::<PUSH, 6, 2>()
 }
 
-// @h prop=C10,C04 tier=quick kind=check timeout=2400 mem=16 bound="UriRefBuf text <= 6 bytes" encodes="PathMutImpl::{pop,push};PathImpl::last;utils::replace"
+// @h prop=C10,C04 tier=quick kind=check timeout=2400 mem=16 bound="UriRefBuf text <= 5 bytes" encodes="PathMutImpl::{pop,push};PathImpl::last;utils::replace"
+#[cfg_attr(kani, kani::proof)]
+#[cfg_attr(kani, kani::unwind(12))]
+#[cfg_attr(kani, kani::stub(std::vec::Vec::resize, crate::stubs::vec_resize))]
+pub fn c10_embedded_pop_n5() {
+    embedded_uri::<POP, 5, 0>()
+}
+
+// @h prop=C10,C04 tier=thorough kind=check timeout=2400 mem=16 bound="UriRefBuf text <= 6 bytes" encodes="PathMutImpl::{pop,push};PathImpl::last;utils::replace"
 #[cfg_attr(kani, kani::proof)]
 #[cfg_attr(kani, kani::unwind(13))]
 #[cfg_attr(kani, kani::stub(std::vec::Vec::resize, crate::stubs::vec_resize))]
@@ -153,7 +175,15 @@ pub fn c10_embedded_pop_n6() {
     embedded_uri::<POP, 6, 0>()
 }
 
-// @h prop=C10,C04 tier=quick kind=check timeout=2400 mem=16 bound="UriRefBuf text <= 7 bytes" encodes="PathMutImpl::clear;utils::replace"
+// @h prop=C10,C04:thorough tier=quick kind=check timeout=2400 mem=16 bound="UriRefBuf text <= 6 bytes" encodes="PathMutImpl::clear;utils::replace"
+#[cfg_attr(kani, kani::proof)]
+#[cfg_attr(kani, kani::unwind(12))]
+#[cfg_attr(kani, kani::stub(std::vec::Vec::resize, crate::stubs::vec_resize))]
+pub fn c10_embedded_clear_n6() {
+    embedded_uri::<CLEAR, 6, 0>()
+}
+
+// @h prop=C10,C04 tier=thorough kind=check timeout=2400 mem=16 bound="UriRefBuf text <= 7 bytes" encodes="PathMutImpl::clear;utils::replace"
 #[cfg_attr(kani, kani::proof)]
 #[cfg_attr(kani, kani::unwind(13))]
 #[cfg_attr(kani, kani::stub(std::vec::Vec::resize, crate::stubs::vec_resize))]
@@ -161,7 +191,15 @@ pub fn c10_embedded_clear_n7() {
     embedded_uri::<CLEAR, 7, 0>()
 }
 
-// @h prop=C10,C04 tier=quick kind=check timeout=2400 mem=16 bound="UriRefBuf text <= 6 bytes, segment <= 2 bytes (incl. '.', '..')" encodes="uri::PathMut::symbolic_push;PathMutImpl::{symbolic_push,pop,push}"
+// @h prop=C10,C04:thorough tier=quick kind=check timeout=3000 mem=26 bound="UriRefBuf text <= 5 bytes, segment <= 2 bytes (incl. '.', '..')" encodes="uri::PathMut::symbolic_push;PathMutImpl::{symbolic_push,pop,push}"
+#[cfg_attr(kani, kani::proof)]
+#[cfg_attr(kani, kani::unwind(12))]
+#[cfg_attr(kani, kani::stub(std::vec::Vec::resize, crate::stubs::vec_resize))]
+pub fn c10_embedded_symbolic_push_n5() {
+    embedded_uri::<SYMBOLIC_PUSH, 5, 2>()
+}
+
+// @h prop=C10,C04 tier=thorough kind=check timeout=5400 mem=30 bound="UriRefBuf text <= 6 bytes, segment <= 2 bytes (incl. '.', '..')" encodes="uri::PathMut::symbolic_push;PathMutImpl::{symbolic_push,pop,push}"
 #[cfg_attr(kani, kani::proof)]
 #[cfg_attr(kani, kani::unwind(13))]
 #[cfg_attr(kani, kani::stub(std::vec::Vec::resize, crate::stubs::vec_resize))]
@@ -223,17 +261,31 @@ fn standalone_uri<const OP: u8, const N: usize, const M: usize>() {
     let pth = unsafe { uri::Path::new_unchecked(arg) };
     apply_op!(x, OP, seg, pth);
     let out = x.as_bytes();
-    assert!(tables::t_uri_path_valid(out), "C04: the stand-alone path buffer is no longer a valid path");
+    assert!(tables::t_uri_path_valid_k(out, N + M + 3), "C04: the stand-alone path buffer is no longer a valid path");
     let got = SegList::of(&split_path(out));
     assert!(lists_equal_mod_shield(s.text.bytes(), &want, out, &got), "C10: the segment sequence after the edit is not the expected one (stand-alone path)");
     let abs_after = out.first() == Some(&b'/');
     assert!(abs_after == absolute, "C10: the stand-alone path did not stay absolute/relative as it was");
-    cover!(got.n > want.n, "a shield was inserted");
-    cover!(want.n >= 3, "three or more segments");
+    if OP == PUSH || OP == SYMBOLIC_PUSH || OP == SYMBOLIC_APPEND {
+        cover!(got.n > want.n, "a shield was inserted");
+        cover!(want.n >= 3, "three or more segments");
+    }
+    if OP == POP {
+        cover!(got.n > want.n, "pop left the shielded single empty segment (/./)");
+        cover!(want.n >= 2, "two or more segments left");
+    }
     forget(x);
 }
 
-// @h prop=C10,C04 tier=quick kind=check timeout=2400 mem=16 bound="uri::PathBuf text <= 6 bytes, segment <= 2 bytes" encodes="uri::PathBuf::push;PathMutImpl::{from_path,push}"
+// @h prop=C10,C04:thorough tier=quick kind=check timeout=2400 mem=16 bound="uri::PathBuf text <= 5 bytes, segment <= 2 bytes" encodes="uri::PathBuf::push;PathMutImpl::{from_path,push}"
+#[cfg_attr(kani, kani::proof)]
+#[cfg_attr(kani, kani::unwind(12))]
+#[cfg_attr(kani, kani::stub(std::vec::Vec::resize, crate::stubs::vec_resize))]
+pub fn c10_pathbuf_push_n5() {
+    standalone_uri::<PUSH, 5, 2>()
+}
+
+// @h prop=C10,C04 tier=thorough kind=check timeout=2400 mem=16 bound="uri::PathBuf text <= 6 bytes, segment <= 2 bytes" encodes="uri::PathBuf::push;PathMutImpl::{from_path,push}"
 #[cfg_attr(kani, kani::proof)]
 #[cfg_attr(kani, kani::unwind(13))]
 #[cfg_attr(kani, kani::stub(std::vec::Vec::resize, crate::stubs::vec_resize))]
@@ -241,7 +293,15 @@ pub fn c10_pathbuf_push_n6() {
     standalone_uri::<PUSH, 6, 2>()
 }
 
-// @h prop=C10,C04 tier=quick kind=check timeout=2400 mem=16 bound="uri::PathBuf text <= 6 bytes" encodes="uri::PathBuf::pop;PathMutImpl::pop"
+// @h prop=C10,C04:thorough tier=quick kind=check timeout=2400 mem=16 bound="uri::PathBuf text <= 5 bytes" encodes="uri::PathBuf::pop;PathMutImpl::pop"
+#[cfg_attr(kani, kani::proof)]
+#[cfg_attr(kani, kani::unwind(12))]
+#[cfg_attr(kani, kani::stub(std::vec::Vec::resize, crate::stubs::vec_resize))]
+pub fn c10_pathbuf_pop_n5() {
+    standalone_uri::<POP, 5, 0>()
+}
+
+// @h prop=C10,C04 tier=thorough kind=check timeout=2400 mem=16 bound="uri::PathBuf text <= 6 bytes" encodes="uri::PathBuf::pop;PathMutImpl::pop"
 #[cfg_attr(kani, kani::proof)]
 #[cfg_attr(kani, kani::unwind(13))]
 #[cfg_attr(kani, kani::stub(std::vec::Vec::resize, crate::stubs::vec_resize))]
@@ -271,4 +331,57 @@ pub fn c10_pathbuf_symbolic_append_n5() {
 #[cfg_attr(kani, kani::stub(std::vec::Vec::resize, crate::stubs::vec_resize))]
 pub fn c10_pathbuf_clear_n7() {
     standalone_uri::<CLEAR, 7, 0>()
+}
+
+/// Two edits through ONE handle with symbolic op choice (push / pop / clear)
+/// give exactly what the same two edits give through two FRESH handles (whose
+/// single steps are decided against the list oracle above), and the handle
+/// still views exactly the path.
+fn two_ops_embedded<const N: usize, const M: usize>() {
+    let t = Text::<N>::any();
+    let b = t.bytes();
+    assume(tables::t_uri_uriref_valid_k(b, N));
+    let a = Text::<M>::any();
+    let arg = a.bytes();
+    assume(uri::Segment::new(arg).is_ok());
+    let op1 = any_u8() % 3;
+    let op2 = any_u8() % 3;
+    let seg = unsafe { uri::Segment::new_unchecked(arg) };
+    let pth = unsafe { uri::Path::new_unchecked(arg) };
+    // reference: a fresh handle per edit
+    let mut y = unsafe { UriRefBuf::new_unchecked(vec_of(b)) };
+    {
+        let mut pm = y.path_mut();
+        apply_op!(pm, op1, seg, pth);
+    }
+    {
+        let mut pm = y.path_mut();
+        apply_op!(pm, op2, seg, pth);
+    }
+    // subject: both edits through one handle
+    let mut x = unsafe { UriRefBuf::new_unchecked(vec_of(b)) };
+    let (hp, hl) = {
+        let mut pm = x.path_mut();
+        apply_op!(pm, op1, seg, pth);
+        apply_op!(pm, op2, seg, pth);
+        let v: &uri::Path = &pm;
+        (v.as_bytes().as_ptr(), v.as_bytes().len())
+    };
+    let out = x.as_bytes();
+    assert!(tables::t_uri_uriref_valid_k(out, N + M + 3), "C04: invalid after two edits through one path handle");
+    assert!(bytes_eq(out, y.as_bytes()), "C10: two edits through one handle differ from the same edits through fresh handles");
+    let fresh = x.path().as_bytes();
+    assert!(hp == fresh.as_ptr() && hl == fresh.len(), "C10: the handle lost track of the path after two edits");
+    cover!(op1 == CLEAR && op2 == PUSH, "clear then push");
+    cover!(op1 == PUSH && op2 == POP, "push then pop");
+    forget(x);
+    forget(y);
+}
+
+// @h prop=C10,C04:thorough tier=thorough kind=check timeout=5400 mem=26 bound="UriRefBuf text <= 5 bytes, two symbolic ops (push/pop/clear) through one handle, segment <= 2 bytes" encodes="PathMutImpl::{push,pop,clear} in sequence on one handle (start/end bookkeeping)"
+#[cfg_attr(kani, kani::proof)]
+#[cfg_attr(kani, kani::unwind(14))]
+#[cfg_attr(kani, kani::stub(std::vec::Vec::resize, crate::stubs::vec_resize))]
+pub fn c10_two_ops_n5() {
+    two_ops_embedded::<5, 2>()
 }
